@@ -323,7 +323,7 @@ def template(ctx, f, e, at=None, depth=0):
     """Symbolic byte template of expression e in mechanism function f:
     list of ('const', bytes) | ('sym', param index) | ('b64', [...]) |
     ('saslname', [...]);  None if not recognised."""
-    if depth > 8:
+    if depth > 40:
         return None
     params = f.params
     if isinstance(e, ast.Constant) and isinstance(e.value, bytes):
@@ -374,19 +374,23 @@ def template(ctx, f, e, at=None, depth=0):
                     out += sep
                 out += t
             return _merge(out)
-        if cn == "replace" and isinstance(e.func, ast.Attribute):
-            chain = []
-            cur = e
-            while isinstance(cur, ast.Call) and isinstance(cur.func, ast.Attribute) and cur.func.attr == "replace" and len(cur.args) == 2:
-                chain.append((const_value(ctx.program, f, cur.args[0]), const_value(ctx.program, f, cur.args[1])))
-                cur = cur.func.value
-            chain.reverse()
-            base = template(ctx, f, cur, at, depth + 1)
+        if cn == "replace" and isinstance(e.func, ast.Attribute) and len(e.args) == 2:
+            base = template(ctx, f, e.func.value, at, depth + 1)
             if base is None:
                 return None
-            if chain == [(b"=", b"=3D"), (b",", b"=2C")]:
-                return [("saslname", base)]
-            return None
+            return _fold_repl(const_value(ctx.program, f, e.args[0]), const_value(ctx.program, f, e.args[1]), base)
+    return None
+
+
+def _fold_repl(a, b, base):
+    """x.replace(a, b) over template `base`: the saslname escaper is '=' -> '=3D' FIRST, then ',' -> '=2C' (in one expression or in
+    successive statements); any other replacement is not part of a recognised format."""
+    if not isinstance(a, bytes) or not isinstance(b, bytes):
+        return None
+    if (a, b) == (b"=", b"=3D"):
+        return [("repl=", base)]
+    if (a, b) == (b",", b"=2C") and len(base) == 1 and base[0][0] == "repl=":
+        return [("saslname", base[0][1])]
     return None
 
 
@@ -402,17 +406,11 @@ def template_with(ctx, f, v, name, cur, d, depth):
     if isinstance(v, ast.Call) and call_name(v) == "b64encode" and v.args:
         inner = template_with(ctx, f, v.args[0], name, cur, d, depth + 1)
         return None if inner is None else [("b64", inner)]
-    if isinstance(v, ast.Call) and call_name(v) == "replace" and isinstance(v.func, ast.Attribute):
-        chain = []
-        c = v
-        while isinstance(c, ast.Call) and isinstance(c.func, ast.Attribute) and c.func.attr == "replace" and len(c.args) == 2:
-            chain.append((const_value(ctx.program, f, c.args[0]), const_value(ctx.program, f, c.args[1])))
-            c = c.func.value
-        chain.reverse()
-        base = template_with(ctx, f, c, name, cur, d, depth + 1)
-        if base is not None and chain == [(b"=", b"=3D"), (b",", b"=2C")]:
-            return [("saslname", base)]
-        return None
+    if isinstance(v, ast.Call) and call_name(v) == "replace" and isinstance(v.func, ast.Attribute) and len(v.args) == 2:
+        base = template_with(ctx, f, v.func.value, name, cur, d, depth + 1)
+        if base is None:
+            return None
+        return _fold_repl(const_value(ctx.program, f, v.args[0]), const_value(ctx.program, f, v.args[1]), base)
     return template(ctx, f, v, at=d, depth=depth)
 
 
